@@ -303,6 +303,15 @@ class JSONRPCMessage(McpPydanticBase):  # type: ignore[no-redef]
             if self.result is None and self.error is None:
                 raise ValueError("Response must have either result or error")
 
+        # Error validation, as for the typed JSONRPCError: an integer code and a
+        # string message (a bool is not a code)
+        if self.error is not None:
+            code = self.error.get("code")
+            if not isinstance(code, int) or isinstance(code, bool):
+                raise ValueError("Error must have an integer 'code' field")
+            if not isinstance(self.error.get("message"), str):
+                raise ValueError("Error must have a string 'message' field")
+
     def to_specific_type(
         self,
     ) -> Union[JSONRPCRequest, JSONRPCNotification, JSONRPCResponse, JSONRPCError]:
